@@ -15,6 +15,9 @@
 #include <csignal>
 #include <cstring>
 #include <sys/wait.h>
+#include <sys/stat.h>
+#include <fcntl.h>
+#include <set>
 
 // ------------------------------------------------------------------------------------------------
 // A mutated count may ask for 2^63 entries. Without sanitizer operator new throws std::bad_alloc; ASan's operator new
@@ -33,6 +36,7 @@ void operator delete[](void* p, std::size_t) noexcept { std::free(p); }
 void operator delete(void* p, const std::nothrow_t&) noexcept { std::free(p); }
 void operator delete[](void* p, const std::nothrow_t&) noexcept { std::free(p); }
 extern "C" const char* __asan_default_options() { return "allocator_may_return_null=1:detect_leaks=0"; }
+extern "C" const char* __ubsan_default_options() { return "print_stacktrace=1"; }
 
 using namespace c11;
 
@@ -51,7 +55,7 @@ namespace
   struct Verdict
   {
     int kind = K_UNKNOWN, parses = 0;
-    std::vector<std::pair<std::string, std::string>> fails;
+    std::vector<std::pair<std::string, std::string>> fails;   // (failure kind, message); the parent builds the key
   };
 
   struct Log
@@ -63,7 +67,9 @@ namespace
     size_t rpos = sizeof(Hdr);   // read position (worker)
     bool child = false;          // this process is a runner child
     bool have_crash = false; long crash_idx = -1; int crash_sig = 0;
-    uint64_t children = 0;
+    std::string crash_stderr;
+    std::string errfile;
+    int errfd = -1;
 
     Hdr* hdr() { return reinterpret_cast<Hdr*>(base); }
     void init()
@@ -75,19 +81,34 @@ namespace
       owner = getpid();
       hdr()->cur = -1; hdr()->used = sizeof(Hdr); hdr()->count = 0;
       rpos = sizeof(Hdr);
+      const char* sc = std::getenv("VERIF_SCRATCH");
+      const char* rt = std::getenv("VERIF_ROOT");
+      std::string dir = sc ? std::string(sc) : (std::string(rt ? rt : "/verif") + "/build/scratch");
+      dir += "/c11_faults";
+      mkdir(dir.c_str(), 0777);
+      errfile = dir + "/stderr." + std::to_string((long)getpid()) + ".txt";
     }
     // ---- child side
     void put(const void* p, size_t n) { size_t u = hdr()->used; if(u + n > cap) _exit(97); std::memcpy(base + u, p, n); hdr()->used = u + n; }
     void put_str(const std::string& s) { uint32_t n = uint32_t(s.size()); put(&n, 4); put(s.data(), n); }
     void append(long idx, const Verdict& v)
     {
-      // the entry becomes visible only when 'count' is increased
-      size_t u0 = hdr()->used;
-      (void)u0;
       put(&idx, sizeof idx); put(&v.kind, 4); put(&v.parses, 4);
       uint32_t nf = uint32_t(v.fails.size()); put(&nf, 4);
       for(auto& f : v.fails) { put_str(f.first); put_str(f.second); }
-      hdr()->count = hdr()->count + 1;
+      hdr()->count = hdr()->count + 1;   // the entry becomes visible only now
+    }
+    void child_begin_case(long idx)
+    {
+      hdr()->cur = idx;
+      if(errfd >= 0) { if(ftruncate(errfd, 0) != 0) {} lseek(errfd, 0, SEEK_SET); }
+      alarm(30);
+    }
+    void child_setup()
+    {
+      child = true;
+      errfd = open(errfile.c_str(), O_WRONLY | O_CREAT | O_TRUNC | O_APPEND, 0666);
+      if(errfd >= 0) dup2(errfd, 2);
     }
     // ---- worker side
     long consumed = 0;
@@ -102,31 +123,42 @@ namespace
       ++consumed;
       return v;
     }
+    std::string read_stderr()
+    {
+      std::string t; if(!read_file(errfile, t)) return std::string();
+      if(t.size() > 60000) t.resize(60000);
+      return t;
+    }
   };
   Log g_log;
 
   const char* signame(int s) { return s == SIGABRT ? "SIGABRT (assertion / sanitizer report)" : s == SIGSEGV ? "SIGSEGV" : s == SIGALRM ? "SIGALRM (no termination within 30 s)" : s == SIGBUS ? "SIGBUS" : s == SIGFPE ? "SIGFPE" : "signal"; }
 
-  void replay_verdict(verif::Ctx& c, const Verdict& v, const std::string& family)
+  /// maps (failure kind, message, stderr of a crashed child) to a key; empty = use the default "<key> :: <kind>"
+  typedef std::function<std::string(const std::string&, const std::string&, const std::string&)> Rekey;
+
+  void replay_verdict(verif::Ctx& c, const Verdict& v, const std::string& key, const std::string& family, const Rekey& rekey)
   {
     c.outcome(family + " -> " + kind_name(Kind(v.kind)));
     c.count("parses", uint64_t(v.parses));
     if(v.kind == K_OK) c.count("accepted");
     else if(v.kind == K_RESOURCE) c.count("rejected_resource");
     else if(documented(Kind(v.kind))) c.count("rejected_documented");
-    for(auto& f : v.fails) c.fail(f.first, f.second);
+    for(auto& f : v.fails)
+    {
+      std::string k = rekey ? rekey(f.first, f.second, std::string()) : std::string();
+      c.fail(k.empty() ? key + " :: " + f.first : k, f.second);
+    }
   }
 
   /// runs exec for the current case (c.want() was true, c.desc was set)
-  void dispatch(verif::Ctx& c, const std::string& key, const std::string& family, const std::function<std::string()>& what, const std::function<void(Verdict&)>& exec)
+  void dispatch(verif::Ctx& c, const std::string& key, const std::string& family, const std::function<std::string()>& what, const std::function<void(Verdict&)>& exec, const Rekey& rekey)
   {
     const long idx = c.index();
-    if(c.replaying) { Verdict v; exec(v); replay_verdict(c, v, family); return; }
     g_log.init();
     if(g_log.child)
     {
-      g_log.hdr()->cur = idx;
-      alarm(30);
+      g_log.child_begin_case(idx);
       Verdict v; exec(v);
       alarm(0);
       g_log.append(idx, v);
@@ -135,13 +167,21 @@ namespace
     for(int attempt = 0; attempt < 3; ++attempt)
     {
       long have = -1;
-      if(g_log.peek_idx(have) && have == idx) { Verdict v = g_log.take(); replay_verdict(c, v, family); return; }
+      if(g_log.peek_idx(have) && have == idx) { Verdict v = g_log.take(); replay_verdict(c, v, key, family, rekey); return; }
       if(g_log.have_crash && g_log.crash_idx == idx)
       {
         g_log.have_crash = false;
         const int sig = g_log.crash_sig;
+        const std::string kind = (sig == SIGALRM ? "hang" : "crash");
         c.outcome(family + " -> " + (sig > 0 ? signame(sig) : "abnormal exit"));
-        c.fail(key + (sig == SIGALRM ? " :: hang" : " :: crash"), std::string("parser died with ") + (sig > 0 ? signame(sig) : "exit code") + " (" + itos_(sig) + ") on: " + what());
+        // first lines of the child's stderr that identify the cause
+        std::string cause;
+        {
+          std::istringstream es(g_log.crash_stderr); std::string ln; int n = 0;
+          while(std::getline(es, ln) && n < 6) { if(ln.find("ERROR") != std::string::npos || ln.find("runtime error") != std::string::npos || ln.find("Message") != std::string::npos || ln.find("Function") != std::string::npos || ln.find("FATAL") != std::string::npos || ln.find("    #0") != std::string::npos || ln.find("    #1") != std::string::npos) { cause += printable(ln, 260) + " / "; ++n; } }
+        }
+        std::string k = rekey ? rekey(kind, std::string(), g_log.crash_stderr) : std::string();
+        c.fail(k.empty() ? key + " :: " + kind : k, std::string("parser died with ") + (sig > 0 ? signame(sig) : "exit code") + " (" + itos_(sig) + ") on: " + what() + " | stderr: " + cause);
         return;
       }
       // no verdict yet: fork a runner child that starts with this case
@@ -151,27 +191,201 @@ namespace
       if(p < 0) { c.fail("machinery :: fork", "fork failed"); return; }
       if(p == 0)
       {
-        g_log.child = true;
-        g_log.hdr()->cur = idx;
-        alarm(30);
+        g_log.child_setup();
+        g_log.child_begin_case(idx);
         Verdict v; exec(v);
         alarm(0);
         g_log.append(idx, v);
         return; // continue the enumeration in the child
       }
-      ++g_log.children;
       c.count("runner_children");
       int st = 0;
       while(waitpid(p, &st, 0) < 0) {}
-      if(WIFSIGNALED(st)) { g_log.have_crash = true; g_log.crash_idx = g_log.hdr()->cur; g_log.crash_sig = WTERMSIG(st); }
-      else if(WIFEXITED(st) && WEXITSTATUS(st) != 0) { g_log.have_crash = true; g_log.crash_idx = g_log.hdr()->cur; g_log.crash_sig = -WEXITSTATUS(st); }
+      if(WIFSIGNALED(st)) { g_log.have_crash = true; g_log.crash_idx = g_log.hdr()->cur; g_log.crash_sig = WTERMSIG(st); g_log.crash_stderr = g_log.read_stderr(); }
+      else if(WIFEXITED(st) && WEXITSTATUS(st) != 0) { g_log.have_crash = true; g_log.crash_idx = g_log.hdr()->cur; g_log.crash_sig = -WEXITSTATUS(st); g_log.crash_stderr = g_log.read_stderr(); }
     }
     c.fail("machinery :: no verdict", "runner child produced no verdict for this case");
   }
 
+  // ------------------------------------------------------------------------------------------------
+  // Known defect classes that the coordinator recorded as findings (not repaired). A failing case is filed under the
+  // fixed key of a class only if BOTH hold: (a) an independent analysis of the mutated *text* shows that it is an
+  // instance of the class, (b) the observed failure carries the signature of that defect (function name in the
+  // sanitizer / assertion output of the crashed child, or the kind of the failure). Everything else keeps its own key.
+  //  F3  <Attribute dim="d"> with int(d) <= 0 (d = -1, 2^31, 2^63 ...)   -> XASSERT in AttributeSet ctor (abort)
+  //  F4  <Mapping> target index outside the root mesh / mesh part with deducted topology that does not contain the
+  //      vertices of its entities -> OOB in Intern::IndexSetFiller (topology="parent"), or silently accepted, or
+  //      accepted and written with out-of-range vertex indices that the reader then rejects
+  //  F5  <Bezier> without <Points>, or with more than one <Points>/<Params> -> writer indexes an empty deque /
+  //      writes a size that the reader rejects
+  //  F8  <SurfaceMesh> with a degenerate triangle or an edge in more than two triangles -> XABORTM in FacetNeighbors
+  // ------------------------------------------------------------------------------------------------
+  struct Diag { bool f3 = false, f4_range = false, f4_closure = false, f5 = false, f8 = false; };
+
+  bool lenient_u64(const std::string& s0, unsigned long long& v)
+  {
+    // what 'istream >> unsigned long' reads: optional sign, digits; "-1" wraps
+    std::string s = trim_ws(s0);
+    size_t i = 0; bool neg = false;
+    if(i < s.size() && (s[i] == '+' || s[i] == '-')) { neg = (s[i] == '-'); ++i; }
+    if(i >= s.size() || !std::isdigit((unsigned char)s[i])) return false;
+    unsigned long long r = 0; bool ovf = false;
+    for(; i < s.size() && std::isdigit((unsigned char)s[i]); ++i) { unsigned long long d = (unsigned long long)(s[i] - '0'); if(r > (~0ull - d) / 10ull) ovf = true; r = r * 10ull + d; }
+    if(ovf) return false;
+    v = neg ? (0ull - r) : r;
+    return true;
+  }
+
+  Diag diagnose(const std::string& text)
+  {
+    Diag d;
+    SeedModel m; m.text = text; m.analyse();
+    // ---- root mesh sizes and topology (first <Mesh>)
+    std::vector<unsigned long long> msz;
+    std::map<int, std::vector<std::vector<unsigned long long>>> mtopo;
+    for(size_t li = 0; li < m.lines.size(); ++li)
+    {
+      const Line& L = m.lines[li];
+      if(L.kind == Line::open && L.tag == "Mesh" && msz.empty()) { auto* a = m.attr(L, "size"); if(a) for(auto& t : split_ws(a->value)) { unsigned long long v = 0; lenient_u64(t, v); msz.push_back(v); } }
+    }
+    auto enclosing = [&](size_t li, int up) -> const Line*
+    {
+      std::vector<const Line*> st;
+      for(size_t k = 0; k < li; ++k) if(m.lines[k].kind == Line::open && m.lines[k].match > int(li)) st.push_back(&m.lines[k]);
+      if(int(st.size()) <= up) return nullptr;
+      return st[st.size() - 1 - size_t(up)];
+    };
+    for(size_t li = 0; li < m.lines.size(); ++li)
+    {
+      const Line& L = m.lines[li];
+      if(L.kind != Line::content || L.in_info) continue;
+      const Line* e0 = enclosing(li, 0); const Line* e1 = enclosing(li, 1);
+      if(e0 && e1 && e0->tag == "Topology" && e1->tag == "Mesh")
+      {
+        auto* a = m.attr(*e0, "dim"); unsigned long long dim = 0;
+        if(a && lenient_u64(a->value, dim)) { std::vector<unsigned long long> row; for(auto& t : split_ws(text.substr(L.beg, L.end - L.beg))) { unsigned long long v = 0; lenient_u64(t, v); row.push_back(v); } mtopo[int(dim)].push_back(row); }
+      }
+    }
+    // ---- F3
+    for(auto& L : m.lines)
+      if((L.kind == Line::open || L.kind == Line::closed) && L.tag == "Attribute")
+      {
+        auto* a = m.attr(L, "dim"); unsigned long long v = 0;
+        if(a && lenient_u64(a->value, v) && v != 0 && int(int32_t(uint32_t(v))) <= 0) d.f3 = true;
+      }
+    // ---- F4
+    for(size_t li = 0; li < m.lines.size(); ++li)
+    {
+      const Line& P = m.lines[li];
+      if(P.kind != Line::open || P.tag != "MeshPart" || P.match < 0) continue;
+      auto* tp = m.attr(P, "topology");
+      const bool parent_topo = tp && tp->value == "parent";
+      std::map<int, std::vector<unsigned long long>> maps;
+      for(size_t k = li + 1; k < size_t(P.match); ++k)
+      {
+        const Line& C = m.lines[k];
+        if(C.kind != Line::content) continue;
+        const Line* e0 = enclosing(k, 0);
+        if(!e0 || e0->tag != "Mapping") continue;
+        auto* a = m.attr(*e0, "dim"); unsigned long long dim = 0, v = 0;
+        if(!a || !lenient_u64(a->value, dim)) continue;
+        if(lenient_u64(text.substr(C.beg, C.end - C.beg), v)) maps[int(dim)].push_back(v);
+      }
+      if(msz.empty()) continue;
+      for(auto& mp : maps)
+        for(auto v : mp.second)
+          if(mp.first >= 0 && size_t(mp.first) < msz.size() && v >= msz[size_t(mp.first)]) d.f4_range = true;
+      if(parent_topo)
+      {
+        std::set<unsigned long long> vs(maps[0].begin(), maps[0].end());
+        for(auto& mp : maps)
+        {
+          if(mp.first < 1) continue;
+          auto it = mtopo.find(mp.first);
+          if(it == mtopo.end()) continue;
+          for(auto e : mp.second) if(e < it->second.size()) for(auto vtx : it->second[size_t(e)]) if(!vs.count(vtx)) d.f4_closure = true;
+        }
+      }
+    }
+    // ---- F5
+    for(size_t li = 0; li < m.lines.size(); ++li)
+    {
+      const Line& B = m.lines[li];
+      if(B.kind != Line::open || B.tag != "Bezier" || B.match < 0) continue;
+      int npts = 0, nprm = 0;
+      for(size_t k = li + 1; k < size_t(B.match); ++k)
+      {
+        const Line& C = m.lines[k];
+        if(C.kind != Line::open && C.kind != Line::closed) continue;
+        const Line* e0 = enclosing(k, 0);
+        if(e0 != &B) continue;
+        if(C.tag == "Points") ++npts;
+        if(C.tag == "Params") ++nprm;
+      }
+      if(npts != 1 || nprm > 1) d.f5 = true;
+    }
+    // ---- F8
+    for(size_t li = 0; li < m.lines.size(); ++li)
+    {
+      const Line& S = m.lines[li];
+      if(S.kind != Line::open || S.tag != "SurfaceMesh" || S.match < 0) continue;
+      std::map<std::pair<unsigned long long, unsigned long long>, int> ec;
+      for(size_t k = li + 1; k < size_t(S.match); ++k)
+      {
+        const Line& C = m.lines[k];
+        if(C.kind != Line::content) continue;
+        const Line* e0 = enclosing(k, 0);
+        if(!e0 || e0->tag != "Triangles") continue;
+        std::vector<unsigned long long> t;
+        for(auto& tk : split_ws(text.substr(C.beg, C.end - C.beg))) { unsigned long long v = 0; if(lenient_u64(tk, v)) t.push_back(v); }
+        if(t.size() != 3) continue;
+        for(int j = 0; j < 3; ++j)
+        {
+          unsigned long long a = t[size_t(j)], b = t[size_t((j + 1) % 3)];
+          if(a == b) d.f8 = true;
+          if(++ec[std::make_pair(std::min(a, b), std::max(a, b))] > 2) d.f8 = true;
+        }
+      }
+    }
+    return d;
+  }
+
+  /// reason: defect class that explains why an input that must be rejected is accepted (0 = none)
+  Rekey mesh_rekey(const std::string& text, int reason)
+  {
+    return [&text, reason](const std::string& kind, const std::string& msg, const std::string& err) -> std::string
+    {
+      const Diag d = diagnose(text);
+      if(kind == "crash")
+      {
+        if(d.f3 && err.find("AttributeSet") != std::string::npos && err.find("ASSERTION FAILED") != std::string::npos) return "known-F3 attribute dim outside int range :: crash";
+        // the defect shows inside MeshNodeLinker::execute -> MeshPart::deduct_topology (IndexSetFiller or the index calculator fed by it)
+        if((d.f4_range || d.f4_closure) && err.find("MeshNodeLinker") != std::string::npos &&
+          (err.find("IndexSetFiller") != std::string::npos || err.find("IndexTree") != std::string::npos || err.find("IndexCalculator") != std::string::npos))
+          return "known-F4 unchecked mapping target index :: crash";
+        if(d.f5 && err.find("Bezier") != std::string::npos && (err.find("write") != std::string::npos)) return "known-F5 bezier points/params block count :: crash";
+        if(d.f8 && err.find("is shared by cells") != std::string::npos) return "known-F8 non-manifold SurfaceMesh triangles :: crash";
+        return std::string();
+      }
+      if(kind == "accepted")
+      {
+        if(reason == 4 && d.f4_range) return "known-F4 unchecked mapping target index :: accepted";
+        if(reason == 5 && d.f5) return "known-F5 bezier points/params block count :: accepted";
+        return std::string();
+      }
+      if(kind == "rewrite-rejected")
+      {
+        if(d.f4_closure && msg.find("Index out of bounds") != std::string::npos) return "known-F4 unchecked mapping target index :: rewrite-rejected";
+        if(d.f5 && (msg.find("<Bezier") != std::string::npos)) return "known-F5 bezier points/params block count :: rewrite-rejected";
+        return std::string();
+      }
+      return std::string();
+    };
+  }
+
   // executes one mutated mesh text (the caller has already got c.want() == true)
   void run_mesh(verif::Ctx& c, const SeedModel& sm, const std::string& family, const std::string& cls, const std::string& text, Expect ex,
-    const std::function<std::string()>& what)
+    const std::function<std::string()>& what, int reason = 0)
   {
     if(!g_log.child) c.desc([&]{ return "mesh seed " + sm.name + " | " + cls + " | " + what() + " | text=" + printable(text, 3000); });
     const std::string key = sm.name + " " + cls;
@@ -181,18 +395,18 @@ namespace
       if(p.kind == K_OK)
       {
         if(ex == EX_REJECT)
-          r.fails.emplace_back(key + " :: accepted", "input violates the format (" + what() + ") but was parsed without error");
+          r.fails.emplace_back("accepted", "input violates the format (" + what() + ") but was parsed without error");
         // whatever was accepted must be a fixed point of write o parse
         Parsed p2 = parse_mesh(p.written, sm.default_type, true, false);
         r.parses = 2;
         if(p2.kind != K_OK)
-          r.fails.emplace_back(key + " :: rewrite-rejected", std::string("the writer's output for an accepted input is rejected by the reader: ") + kind_name(p2.kind) + " " + p2.what + " | written: " + printable(p.written, 900));
+          r.fails.emplace_back("rewrite-rejected", std::string("the writer's output for an accepted input is rejected by the reader: ") + kind_name(p2.kind) + " " + p2.what + " | written: " + printable(p.written, 900));
         else if(p2.written != p.written)
-          r.fails.emplace_back(key + " :: roundtrip", "write(parse(write(parse(x)))) differs from write(parse(x)); first output: " + printable(p.written, 600) + " second: " + printable(p2.written, 600));
+          r.fails.emplace_back("roundtrip", "write(parse(write(parse(x)))) differs from write(parse(x)); first output: " + printable(p.written, 600) + " second: " + printable(p2.written, 600));
       }
       else if(!rejected_cleanly(p.kind))
-        r.fails.emplace_back(key + " :: undocumented exception " + kind_name(p.kind), "parser terminated with " + p.what + " (" + what() + ")");
-    });
+        r.fails.emplace_back(std::string("undocumented exception ") + kind_name(p.kind), "parser terminated with " + p.what + " (" + what() + ")");
+    }, mesh_rekey(text, reason));
     if(!g_log.child && text != sm.text) c.nontrivial(verif::Hash().str(sm.name).str(text).get());
   }
 
@@ -208,15 +422,15 @@ namespace
       {
         ParsedIni p2 = parse_ini(p.written);
         r.parses = 2;
-        if(p2.kind != K_OK) r.fails.emplace_back(key + " :: rewrite-rejected", "dump of an accepted input is rejected: " + p2.what + " dump=" + printable(p.written));
+        if(p2.kind != K_OK) r.fails.emplace_back("rewrite-rejected", "dump of an accepted input is rejected: " + p2.what + " dump=" + printable(p.written));
         else
         {
-          if(p2.canon != p.canon) r.fails.emplace_back(key + " :: reparse-differs", "parse(dump(parse(x))) differs from parse(x): " + printable(p.canon) + " vs " + printable(p2.canon));
-          if(p2.written != p.written) r.fails.emplace_back(key + " :: roundtrip", "dump(parse(dump(parse(x)))) differs from dump(parse(x)): " + printable(p.written) + " vs " + printable(p2.written));
+          if(p2.canon != p.canon) r.fails.emplace_back("reparse-differs", "parse(dump(parse(x))) differs from parse(x): " + printable(p.canon) + " vs " + printable(p2.canon));
+          if(p2.written != p.written) r.fails.emplace_back("roundtrip", "dump(parse(dump(parse(x)))) differs from dump(parse(x)): " + printable(p.written) + " vs " + printable(p2.written));
         }
       }
-      else if(!rejected_cleanly(p.kind)) r.fails.emplace_back(key + " :: undocumented exception " + kind_name(p.kind), "parser terminated with " + p.what);
-    });
+      else if(!rejected_cleanly(p.kind)) r.fails.emplace_back(std::string("undocumented exception ") + kind_name(p.kind), "parser terminated with " + p.what);
+    }, Rekey());
     if(!g_log.child && text != seed_text) c.nontrivial(verif::Hash().str("ini").str(seed_name).str(text).get());
   }
 
@@ -393,10 +607,10 @@ int main(int argc, char** argv)
         }
       }
       // ---------------------------------------------------------------- S: semantic single faults
-      auto sem = [&](const std::string& cls, const std::string& m, Expect ex, const std::string& what)
+      auto sem = [&](const std::string& cls, const std::string& m, Expect ex, const std::string& what, int reason = 0)
       {
         // caller checked c.want()
-        run_mesh(c, sm, "S", cls, m, ex, [&]{ return what; });
+        run_mesh(c, sm, "S", cls, m, ex, [&]{ return what; }, reason);
       };
       for(size_t li = 0; li < sm.lines.size(); ++li)
       {
@@ -660,7 +874,7 @@ int main(int argc, char** argv)
               {
                 if(!c.want()) continue;
                 sem("S10 mapping-index-out-of-parent-range dim" + itos(dim), setline({itos(v)}), EX_REJECT,
-                  "mesh part target index " + tk[0] + " -> " + itos(v) + " but the root mesh has " + itos(mesh_sizes[size_t(dim)]) + " entities of dimension " + itos(dim) + lno);
+                  "mesh part target index " + tk[0] + " -> " + itos(v) + " but the root mesh has " + itos(mesh_sizes[size_t(dim)]) + " entities of dimension " + itos(dim) + lno, 4);
               }
           }
           if(par == "Patch" && enc2 && tk.size() == 1)
@@ -711,12 +925,13 @@ int main(int argc, char** argv)
         if(L.tag == "Circle" || L.tag == "Sphere" || L.tag == "Bezier" || L.tag == "SurfaceMesh" || L.tag == "Extrude") exd = EX_REJECT; // leaves an empty parent
         if(L.tag == "Mesh" && has_parent_topo) exd = EX_REJECT;
         if(L.tag == "Chart") { auto* n = sm.attr(L, "name"); if(n && chart_refs.count(n->value)) exd = EX_REJECT; }
-        if(c.want()) sem("S11 block-deletion <" + L.tag + ">", T.substr(0, b) + T.substr(e), exd, "element <" + L.tag + "> removed" + lno);
+        const int reason = (L.tag == "Points" || L.tag == "Params") && par == "Bezier" ? 5 : 0;
+        if(c.want()) sem("S11 block-deletion <" + L.tag + ">", T.substr(0, b) + T.substr(e), exd, "element <" + L.tag + "> removed" + lno, reason);
         // duplication
         Expect exu = EX_ANY;
         if(L.tag == "Mesh" || L.tag == "Mapping" || L.tag == "MeshPart" || L.tag == "Chart") exu = EX_REJECT;
         if((L.tag == "Vertices" || L.tag == "Topology") && (par == "Mesh" || par == "MeshPart")) exu = EX_REJECT;
-        if(c.want()) sem("S11 block-duplication <" + L.tag + ">", T.substr(0, e) + T.substr(b, e - b) + T.substr(e), exu, "element <" + L.tag + "> present twice" + lno);
+        if(c.want()) sem("S11 block-duplication <" + L.tag + ">", T.substr(0, e) + T.substr(b, e - b) + T.substr(e), exu, "element <" + L.tag + "> present twice" + lno, reason);
         // moved to the end of the root (order independence is not required; crash freedom is)
         if(par == "FeatMeshFile" && e < sm.lines[sm.lines.size() - 1].beg)
         {
